@@ -151,11 +151,11 @@ func (t MultipartMixed) Do(w http.ResponseWriter, r *http.Request, exec graphql.
 	}
 }
 
-func writeIncrementalJson(w io.Writer, responses []*graphql.Response, hasNext bool) {
+func writeIncrementalJson(w io.Writer, responses []json.RawMessage, hasNext bool) {
 	// TODO: Remove this wrapper on response once gqlgen supports the 2023 spec
 	b, err := json.Marshal(struct {
-		Incremental []*graphql.Response `json:"incremental"`
-		HasNext     bool                `json:"hasNext"`
+		Incremental []json.RawMessage `json:"incremental"`
+		HasNext     bool              `json:"hasNext"`
 	}{
 		Incremental: responses,
 		HasNext:     hasNext,
@@ -181,11 +181,15 @@ func writeContentTypeHeader(w io.Writer) {
 // multipartResponseAggregator helps us reduce the number of responses sent to the frontend by batching all the
 // incremental responses together.
 type multipartResponseAggregator struct {
-	mu              sync.Mutex
-	boundary        string
-	initialResponse *graphql.Response
-	deferResponses  []*graphql.Response
+	mu       sync.Mutex
+	boundary string
+	// responses are serialized when they are added (on the handler's goroutine, where a
+	// failure is recovered like any other), the flushes only write bytes
+	initialResponse json.RawMessage
+	deferResponses  []json.RawMessage
+	hasNext         bool // of the response added last
 	done            chan bool
+	stopped         chan struct{}
 }
 
 // newMultipartResponseAggregator creates a new multipartResponseAggregator
@@ -199,8 +203,10 @@ func newMultipartResponseAggregator(
 	a := &multipartResponseAggregator{
 		boundary: boundary,
 		done:     make(chan bool, 1),
+		stopped:  make(chan struct{}),
 	}
 	go func() {
+		defer close(a.stopped)
 		ticker := time.NewTicker(tickerDuration)
 		defer ticker.Stop()
 		for {
@@ -218,18 +224,25 @@ func newMultipartResponseAggregator(
 // Done flushes the remaining responses
 func (a *multipartResponseAggregator) Done(w http.ResponseWriter) {
 	a.done <- true
+	// the ticker must not write any more once the handler returns
+	<-a.stopped
 	a.flush(w)
 }
 
 // Add accumulates the responses
 func (a *multipartResponseAggregator) Add(resp *graphql.Response, initialResponse bool) {
+	b, err := json.Marshal(resp)
+	if err != nil {
+		panic(fmt.Errorf("unable to marshal %s: %w", string(resp.Data), err))
+	}
 	a.mu.Lock()
 	defer a.mu.Unlock()
+	a.hasNext = resp.HasNext != nil && *resp.HasNext
 	if initialResponse {
-		a.initialResponse = resp
+		a.initialResponse = b
 		return
 	}
-	a.deferResponses = append(a.deferResponses, resp)
+	a.deferResponses = append(a.deferResponses, b)
 }
 
 // flush sends the accumulated responses to the client
@@ -254,8 +267,8 @@ func (a *multipartResponseAggregator) flush(w http.ResponseWriter) {
 		writeBoundary(w, a.boundary, false)
 		writeContentTypeHeader(w)
 
-		writeJson(w, a.initialResponse)
-		hasNext = a.initialResponse.HasNext != nil && *a.initialResponse.HasNext
+		w.Write(a.initialResponse)
+		hasNext = a.hasNext
 
 		// Handle when initial is aggregated with deferred responses.
 		if len(a.deferResponses) > 0 {
@@ -280,8 +293,7 @@ func (a *multipartResponseAggregator) flush(w http.ResponseWriter) {
 		// TODO: use the "HasNext" status of deferResponses items to determine
 		// the operation status and pending / complete fields, but remove from
 		// the incremental (deferResponses) object.
-		hasNext = a.deferResponses[len(a.deferResponses)-1].HasNext != nil &&
-			*a.deferResponses[len(a.deferResponses)-1].HasNext
+		hasNext = a.hasNext
 		writeIncrementalJson(w, a.deferResponses, hasNext)
 
 		// Reset the deferResponses so we don't send them again
